@@ -78,6 +78,13 @@ def perform(o, call, keep=None):
         return snap(r)
     if k == "errors": return sorted(str(e.value) for e in o.errors())
     if k == "to_json": return safe(lambda: jsonable(o.to_json()))
+    if k == "json_roundtrip":
+        # reading a document back is a query on the document: what it gives must not depend on what was read (or asked) before
+        j = jsonable(o.to_json())
+        call["_j"] = j
+        is_cfg_ = isinstance(o, cc.StingyConfigurator)
+        r = cc.StingyConfigurator.from_json(copy.deepcopy(j)) if is_cfg_ else pg.from_json(copy.deepcopy(j))
+        return snap(r)
     if k == "to_b64": return safe(lambda: o.to_b64())
     if k == "encode":
         rows, avars = poly_snap(o.to_ge_polyhedron(active=call["active"]))
@@ -110,6 +117,9 @@ def model_op(t, call):
         return {"op": "encode", "t": t, "active": call["active"]}, lambda r: {"rows": r["rows"], "vars": r["vars"], "safe": solver_safe(t)}, norm_encode
     if k == "flatten":
         return {"op": "flatten", "t": t}, lambda r: {"res": r}, None
+    if k == "json_roundtrip" and "_j" in call:
+        cfg_ = t["cls"] == "Stingy"
+        return {"op": "from_json", "j": call["_j"], "cfg": cfg_, "top": cfg_}, lambda r: {"t": r}, None
     if k == "ge_polyhedron":
         return {"op": "encode", "t": t, "active": True}, lambda r: {"rows": r["rows"], "vars": r["vars"], "safe": solver_safe(t)}, norm_encode
     return None
@@ -117,7 +127,7 @@ def model_op(t, call):
 
 def gen_call(rng, o, t, is_cfg, prev=None):
     lv = leaves_of(t)
-    kinds = ["evaluate", "evalprops", "assume", "reduce", "negate", "negate", "errors", "to_json", "to_b64", "encode", "flatten", "solve"]
+    kinds = ["evaluate", "evalprops", "assume", "reduce", "negate", "negate", "errors", "to_json", "to_b64", "encode", "flatten", "solve", "json_roundtrip"]
     if is_cfg:
         kinds += ["ge_polyhedron", "ge_polyhedron", "default_prios", "leafs", "select", "select", "add"]
     k = rng.choice(kinds)
